@@ -2,6 +2,7 @@ package sec
 
 import (
 	"bufio"
+	"bytes"
 	"crypto/tls"
 	"fmt"
 	"net"
@@ -18,6 +19,7 @@ import (
 	"github.com/bluenviron/gortsplib/v5/pkg/headers"
 	"github.com/bluenviron/gortsplib/v5/pkg/mikey"
 	"github.com/bluenviron/gortsplib/v5/pkg/ntp"
+	"github.com/bluenviron/gortsplib/v5/pkg/sdpunmarshaler"
 
 	"verifharness/corr"
 )
@@ -100,6 +102,28 @@ func setupCorrespondence(c *corr.Ctx, in *E2EInput, name string, reqs, ress []an
 			byCSeq[res.Header["CSeq"][0]] = res
 		}
 	}
+	// record: the key announced in the SDP is the key sent with SETUP (same media, same key)
+	var announced [][]byte
+	for _, r := range reqs {
+		if req, ok := r.(*base.Request); ok && req.Method == base.Announce {
+			if sd, err := sdpunmarshaler.Unmarshal(req.Body); err == nil {
+				var d description.Session
+				if err = d.Unmarshal2(sd); err == nil {
+					for _, m := range d.Medias {
+						var k []byte
+						if m.KeyMgmtMikey != nil {
+							for _, p := range m.KeyMgmtMikey.Payloads {
+								if km, ok2 := p.(*mikey.PayloadKEMAC); ok2 && len(km.SubPayloads) == 1 {
+									k = km.SubPayloads[0].KeyData
+								}
+							}
+						}
+						announced = append(announced, k)
+					}
+				}
+			}
+		}
+	}
 	cs := corr.Case{Name: name + "-setups", Nontrivial: true}
 	state := "i"
 	if in.Scenario == "record" {
@@ -116,6 +140,19 @@ func setupCorrespondence(c *corr.Ctx, in *E2EInput, name string, reqs, ress []an
 		res := byCSeq[req.Header["CSeq"][0]]
 		if res == nil {
 			continue
+		}
+		if in.Scenario == "record" {
+			var km headers.KeyMgmt
+			if err := km.Unmarshal(req.Header["KeyMgmt"]); err == nil && k < len(announced) {
+				for _, p := range km.MikeyMessage.Payloads {
+					if kp, ok2 := p.(*mikey.PayloadKEMAC); ok2 && len(kp.SubPayloads) == 1 {
+						if !bytes.Equal(kp.SubPayloads[0].KeyData, announced[k]) {
+							e2eViol(c, "the key announced for a media is the key the media is set up with", "sec-e2e-announce-key", in, fmt.Sprintf("media %d", k))
+						}
+						c.Dist("e2e-announce-key-checked")
+					}
+				}
+			}
 		}
 		back := in.Scenario == "back" && strings.HasSuffix(req.URL.String(), fmt.Sprintf("trackID=%d", len(in.Formats)-1))
 		op := setupOp(true, true, state, setupped, inuse, req.Header, time.Now(), back)
@@ -905,6 +942,99 @@ func clientAnnounce(c *corr.Ctx, s *scripted) {
 	}
 }
 
+// clientKeySource: where the client takes the key of its incoming context from.
+func clientKeySource(c *corr.Ctx, s *scripted) {
+	mk := func(b byte) *mikey.Message {
+		m := validMsg(c, 30, nil, []mikey.SRTPIDEntry{{SSRC: 99, ROC: 0}}, ntp.Encode(time.Now()))
+		copy(m.Payloads[3].(*mikey.PayloadKEMAC).SubPayloads[0].KeyData, []byte{b, b, b, b})
+		return m
+	}
+	keyOf := func(m *mikey.Message) []byte { return m.Payloads[3].(*mikey.PayloadKEMAC).SubPayloads[0].KeyData }
+	for code := 0; code < 16; code++ {
+		managed, inResp, inMedia, inSess := code&1 != 0, code&2 != 0, code&4 != 0, code&8 != 0
+		in := map[string]any{"kind": "client", "what": "ckey", "client_managed": managed, "response": inResp, "media": inMedia, "session": inSess}
+		mR, mM, mS := mk('R'), mk('M'), mk('S')
+		g := &format.Generic{PayloadTyp: 96, RTPMa: "private/90000"}
+		g.Init()
+		med := &description.Media{Type: description.MediaTypeVideo, Control: "trackID=0", Formats: []format.Format{g}, Profile: headers.TransportProfileSAVP}
+		if inMedia {
+			med.KeyMgmtMikey = mM
+		}
+		d0 := &description.Session{Medias: []*description.Media{med}}
+		if inSess {
+			d0.KeyMgmtMikey = mS
+		}
+		sdp, err := d0.Marshal()
+		if err != nil {
+			c.Note("ckey sdp: " + err.Error())
+			continue
+		}
+		nSetup := 0
+		s.mu.Lock()
+		s.setups = nil
+		s.onDescribe = func(_ *base.Request, _ bool) *base.Response {
+			return &base.Response{StatusCode: base.StatusOK, Header: base.Header{"Content-Type": base.HeaderValue{"application/sdp"}}, Body: sdp}
+		}
+		s.onSetup = func(req *base.Request) *base.Response {
+			nSetup++
+			if managed && nSetup == 1 {
+				return &base.Response{StatusCode: base.StatusKeyManagementFailure, StatusMessage: "Key Management Failure"}
+			}
+			th := headers.Transport{Protocol: headers.TransportProtocolTCP, Profile: headers.TransportProfileSAVP, InterleavedIDs: &[2]int{0, 1}}
+			dl := headers.TransportDeliveryUnicast
+			th.Delivery = &dl
+			h := base.Header{"Transport": th.Marshal(), "Session": base.HeaderValue{"12345678"}}
+			if inResp {
+				hv, _ := headers.KeyMgmt{URL: req.URL.String(), MikeyMessage: mR}.Marshal()
+				h["KeyMgmt"] = hv
+			}
+			return &base.Response{StatusCode: base.StatusOK, Header: h}
+		}
+		s.mu.Unlock()
+		cl := newClient("rtsps", s.addr(true), protoPtr("t"))
+		if err = cl.Start(); err != nil {
+			c.Note("ckey start: " + err.Error())
+			continue
+		}
+		u, _ := base.ParseURL("rtsps://" + s.addr(true) + "/stream")
+		d, _, err := cl.Describe(u)
+		if err != nil {
+			cl.Close()
+			c.Note("ckey describe: " + err.Error())
+			continue
+		}
+		_, serr := cl.Setup(d.BaseURL, d.Medias[0], 0, 0)
+		impl := "missing"
+		if serr == nil {
+			k := cl.VerifClientSRTPKeysFor(d.Medias)[0]
+			switch {
+			case k == nil || k[2] == nil:
+				impl = "none"
+			case bytes.Equal(k[2], keyOf(mR)):
+				impl = "response"
+			case bytes.Equal(k[2], keyOf(mM)):
+				impl = "media"
+			case bytes.Equal(k[2], keyOf(mS)):
+				impl = "session"
+			case bytes.Equal(k[2], k[0]) && bytes.Equal(k[3], k[1]) && len(k[1]) == 4:
+				impl = "own"
+			default:
+				impl = "unknown"
+			}
+			if impl == "none" || impl == "unknown" {
+				cviol(c, "the incoming context of a secure media is keyed by the server's key material", "sec-client-in-key", in, impl)
+			}
+			if managed != (len(k[1]) != 0) {
+				cviol(c, "an MKI is used exactly with client-managed keys", "sec-client-mki", in, fmt.Sprintf("mki %x", k[1]))
+			}
+		}
+		cl.Close()
+		c.Dist("ckey-" + impl)
+		c.Add(corr.Case{Name: fmt.Sprintf("ckey-%d", code), Ops: []string{fmt.Sprintf("sec ckey %s %s %s %s", corr.B(managed), corr.B(inResp), corr.B(inMedia), corr.B(inSess))},
+			Impl: []string{impl}, Nontrivial: true})
+	}
+}
+
 func runClientSide(c *corr.Ctx) {
 	s, err := newScripted()
 	if err != nil {
@@ -916,6 +1046,7 @@ func runClientSide(c *corr.Ctx) {
 	clientProfileCheck(c, s)
 	clientRedirects(c, s)
 	clientAnnounce(c, s)
+	clientKeySource(c, s)
 }
 
 func replayClient(c *corr.Ctx, in *Input) {
